@@ -16,7 +16,7 @@ ASSUMPTIONS = ['raw HTML blocks/spans are set aside by a harness subclass of Htm
 ALPH = {
     'linkimg': ['[', ']', '(', ')', '!', 'a', '"', '<', '>', '&', ' ', "'", '\\'],
     'info': ['`', '~', '\n', ' ', 'a', '"', '<', '&'],
-    'autolink': ['<', '>', 'a', '@', ':', '/', '&', '"', '.', ' '],
+    'autolink': ['<', '>', 'a', '@', ':', '/', '&', '"', '.', ' ', 'aa:'],
     'table': ['|', '-', ':', '\n', 'a', '<', '&', '"', '#'],
     'refdef': ['[', ']', ':', 'a', '"', "'", '(', ')', '<', '>', '\n', ' '],
 }
